@@ -40,6 +40,13 @@ type vocab struct {
 	strs    []string
 	tsBase []time.Time // thresholds used by ts rules of this batch
 	nums   []string
+
+	// leaves / conditions of the batch's rules by field selector: generic
+	// events aim at them too, so that every event is relevant to many rules
+	tsFormat  string   // the format most ts rules of the batch use
+	family    []string // per path: the kind of data the field usually carries (text, ts, arr, int)
+	targets   map[string][]*rule
+	mfTargets map[string][]*mfCond
 }
 
 func pick[T any](rng *rand.Rand, xs []T) T { return xs[rng.Intn(len(xs))] }
@@ -117,12 +124,12 @@ func genVocab(rng *rand.Rand) *vocab {
 	v := &vocab{}
 	// paths: 3-5 top-level, 1-3 nested below a shared parent
 	segs := rng.Perm(len(segPool))
-	nTop := 3 + rng.Intn(3)
+	nTop := 2 + rng.Intn(2)
 	for i := 0; i < nTop; i++ {
 		v.paths = append(v.paths, []string{segPool[segs[i]]})
 	}
 	parent := segPool[segs[nTop]]
-	nNest := 1 + rng.Intn(3)
+	nNest := 1 + rng.Intn(2)
 	for i := 0; i < nNest; i++ {
 		p := []string{parent, segPool[segs[nTop+1+i]]}
 		if rng.Intn(3) == 0 {
@@ -133,6 +140,10 @@ func genVocab(rng *rand.Rand) *vocab {
 	if rng.Intn(4) == 0 {
 		v.paths = append(v.paths, []string{parent}) // the parent itself (an object most of the time)
 	}
+	for i := range v.paths {
+		v.family = append(v.family, []string{"text", "ts", "arr", "int", "text", "text", "ts"}[i%7])
+	}
+	v.tsFormat = pick(rng, tsFormats)
 	// strings: 3-5 base words and derivations
 	nBase := 3 + rng.Intn(3)
 	for i := 0; i < nBase; i++ {
@@ -269,7 +280,10 @@ func genLeaf(rng *rand.Rand, voc *vocab, allowNow bool) *rule {
 		r.n = pick(rng, []int{0, 1, 5, 12, 100, 123, 12345})
 	case x < 90:
 		r.op, r.cmp = "ts_cmp", pick(rng, cmpOps)
-		r.format = pick(rng, tsFormats)
+		r.format = voc.tsFormat
+		if rng.Intn(100) < 35 {
+			r.format = pick(rng, tsFormats)
+		}
 		y := rng.Intn(10)
 		switch {
 		case allowNow && y == 0:
@@ -288,6 +302,29 @@ func genLeaf(rng *rand.Rand, voc *vocab, allowNow bool) *rule {
 		n := 1 + rng.Intn(3)
 		for i := 0; i < n; i++ {
 			r.values = append(r.values, sp(pick(rng, typeNames)))
+		}
+	}
+	// fields have habits: most of the time a leaf looks at a field that usually carries its kind of data
+	fam := "text"
+	switch r.op {
+	case "ts_cmp":
+		fam = "ts"
+	case "array_len_cmp":
+		fam = "arr"
+	case "int_val_cmp":
+		fam = "int"
+	case "check_type", "byte_len_cmp":
+		fam = ""
+	}
+	if fam != "" && r.path != nil && rng.Intn(100) < 75 {
+		var cands [][]string
+		for i, f := range voc.family {
+			if f == fam {
+				cands = append(cands, voc.paths[i])
+			}
+		}
+		if len(cands) > 0 {
+			r.path = pick(rng, cands)
 		}
 	}
 	return r
@@ -358,6 +395,10 @@ func genString(rng *rand.Rand, voc *vocab) *val {
 	w := pick(rng, voc.strs)
 	if rng.Intn(2) == 0 {
 		w = mutate(rng, w)
+	}
+	if rng.Intn(25) == 0 {
+		// long text (beyond small-buffer sizes) that still starts/ends like the word
+		w = w + strings.Repeat(pick(rng, []string{"-", "x", "\u00e9", w}), 20+rng.Intn(80)) + w
 	}
 	v := vStr(w)
 	if rng.Intn(6) == 0 {
@@ -484,8 +525,8 @@ func targetValue(rng *rand.Rand, voc *vocab, l *rule, now time.Time) *val {
 				return a
 			}
 			o := vObj()
-			if n > 6 {
-				o.set("k", vStr(strings.Repeat("v", n-6-2)))
+			if n >= 8 {
+				o.set("k", vStr(strings.Repeat("v", n-8)))
 			}
 			return o
 		default:
@@ -564,10 +605,28 @@ func genEvent(rng *rand.Rand, voc *vocab, leaves []*rule, now time.Time) *val {
 		if rng.Intn(100) < 22 {
 			continue // absent
 		}
-		setPath(root, p, genValue(rng, voc))
+		sel := selector(p)
+		switch {
+		case len(voc.targets[sel]) > 0 && rng.Intn(100) < 55:
+			setPath(root, p, targetValue(rng, voc, pick(rng, voc.targets[sel]), now))
+		case len(voc.mfTargets[sel]) > 0 && rng.Intn(100) < 55:
+			setPath(root, p, mfTargetValue(rng, voc, pick(rng, voc.mfTargets[sel])))
+		default:
+			setPath(root, p, genValue(rng, voc))
+		}
 	}
 	if rng.Intn(3) == 0 {
 		root.set("extra", genSmall(rng, voc, 1))
+	}
+	if rng.Intn(10) == 0 {
+		// many keys: insane-json switches to a map index above 16 fields
+		n := 14 + rng.Intn(12)
+		for i := 0; i < n; i++ {
+			root.set("pad"+strconv.Itoa(i), genSmall(rng, voc, 0))
+		}
+	}
+	if rng.Intn(12) == 0 {
+		root.esc = 1 + rng.Intn(2) // keys written with \u escapes
 	}
 	for _, l := range leaves {
 		if len(l.path) == 0 || rng.Intn(100) < 25 {
@@ -641,35 +700,59 @@ func genMfRule(rng *rand.Rand, voc *vocab) *mfRule {
 	return m
 }
 
-// mfTargetEvent aims at the values of the rule's conditions.
+// mfTargetValue aims at the values of one condition.
+func mfTargetValue(rng *rand.Rand, voc *vocab, c *mfCond) *val {
+	if c.isRe {
+		return genString(rng, voc)
+	}
+	w := pick(rng, c.values)
+	if rng.Intn(2) == 0 {
+		w = mutate(rng, w)
+	}
+	v := vStr(w)
+	if rng.Intn(8) == 0 {
+		v.esc = 1 + rng.Intn(2)
+	}
+	if _, err := strconv.Atoi(w); err == nil && rng.Intn(2) == 0 && !strings.HasPrefix(w, "+") && (w == "0" || !strings.HasPrefix(w, "0")) && w != "-0" {
+		v = vNum(w)
+	}
+	return v
+}
+
+// genMfEvent: a generic event, with the fields of m (may be nil) aimed at.
 func genMfEvent(rng *rand.Rand, voc *vocab, m *mfRule) *val {
 	root := genEvent(rng, voc, nil, time.Time{})
 	if m == nil {
 		return root
 	}
-	for _, c := range m.conds {
+	for i := range m.conds {
 		if rng.Intn(100) < 30 {
 			continue
 		}
-		var v *val
-		if c.isRe {
-			v = genString(rng, voc)
-		} else {
-			w := pick(rng, c.values)
-			if rng.Intn(2) == 0 {
-				w = mutate(rng, w)
-			}
-			v = vStr(w)
-			if rng.Intn(8) == 0 {
-				v.esc = 1 + rng.Intn(2)
-			}
-			if _, err := strconv.Atoi(w); err == nil && rng.Intn(2) == 0 && !strings.HasPrefix(w, "+") && (w == "0" || !strings.HasPrefix(w, "0")) && w != "-0" {
-				v = vNum(w)
-			}
-		}
-		setPath(root, c.path, v)
+		setPath(root, m.conds[i].path, mfTargetValue(rng, voc, &m.conds[i]))
 	}
 	return root
+}
+
+func (v *vocab) indexRules(rules []*rule) {
+	v.targets = map[string][]*rule{}
+	for _, r := range rules {
+		for _, l := range r.leaves(nil) {
+			if len(l.path) > 0 {
+				v.targets[selector(l.path)] = append(v.targets[selector(l.path)], l)
+			}
+		}
+	}
+}
+
+func (v *vocab) indexMfRules(rules []*mfRule) {
+	v.mfTargets = map[string][]*mfCond{}
+	for _, m := range rules {
+		for i := range m.conds {
+			sel := selector(m.conds[i].path)
+			v.mfTargets[sel] = append(v.mfTargets[sel], &m.conds[i])
+		}
+	}
 }
 
 // ---------------------------------------------------------------------
